@@ -13,12 +13,12 @@ CONSTANTS
   ZDCode = {30309,120703,3003705}
   Delivery = "by_prior"
   Passes = "user_table"
-  QNum = {0,9,11,12,13,15,24,112}
+  QNum = {0,9,14,112}
   QShift = 12
   QDen = {1,4}
-  ENum = {0,6,9,12,14}
+  ENum = {0,6,12,14}
   EShift = 12
-  SNum = {1,3,25}
+  SNum = {1,3}
   SDen = {1,10}
   Companies = {"alone", "default", "user"}
   Export = TRUE
